@@ -91,3 +91,23 @@ func init() {
 		Assumes:    []string{"token offsets recorded by the scanner are offsets of the construct concerned"},
 	})
 }
+
+func init() {
+	register(&propSpec{
+		ID:    "C13",
+		Rules: []func(*Ctx){ruleR13a, ruleR13b, func(c *Ctx) { runEffects(c, "R13c", compileEntries, true, nil) }},
+		Explain: "R13a: every range over a map in the functions reachable from compile, JS generation and render entries (plus every String() of ast/data/parse) is order-insensitive: it only stores under the range key, updates the element itself, counts, tests existence, or collects into a slice that is sorted before use; R13b: no reachable read of clock, environment or random source (randomInt excepted by specification); R13c: no package-state write on the compile side (so one compile cannot influence the next).",
+		NotDecided: "insertion-order semantics (which of two files defining a name wins, which of several independent errors is reported first).",
+		Assumes:    []string{"library functions listed as pure do not depend on map order", "VTA call graph for reachability"},
+	})
+}
+
+func init() {
+	register(&propSpec{
+		ID:    "C10",
+		Rules: []func(*Ctx){ruleR10a, ruleR10b, ruleR10c},
+		Explain: "R10a: no range over a map on the id / placeholder-name path is order-sensitive (K6); R10b: of ast.MsgNode the id computation reads only Body and Meaning, reads no source position, and reads only package variables that are never written after init (SSA field-read sets over the reachable functions); R10c: ids and placeholder names are assigned only in soymsg, which is called only from the compile pass and the extractor.",
+		NotDecided: "numeric agreement of fingerprint/hash32 with the official algorithm; the exact placeholder names the official algorithm would choose.",
+		Assumes:    []string{"VTA call graph for reachability"},
+	})
+}
